@@ -1095,4 +1095,34 @@ theorem prepareRound_rel (g g' : Agc) (b : Nat) (hz : g.Z = g'.Z) :
   exact ⟨h3.2, h3.1⟩
 
 
+/-! ### the code before the F-14c / F-14d repairs (kept only for the regression theorems) -/
+
+/-- caches.go: cacheMsgs.commit *before* the F-14d repair: the bound is the wrapping uint64
+expression `block - MaxNonce` -/
+def commitMsgsPreFix (s : Store) (maxNonce block : Nat) (msgs : List ItemM) : Store :=
+  let dropped := s.msgIndex.takeWhile (fun b => !(b > wrapSub64 block maxNonce))
+  let kept := s.msgIndex.dropWhile (fun b => !(b > wrapSub64 block maxNonce))
+  let rm := dropped.foldl (fun l b => adel b l) s.recentMsgs
+  { s with recentMsgs := aset block msgs rm, msgIndex := kept ++ [block] }
+
+/-- single.go: recacheAggregatorContext *before* the F-14c repair, restricted to its `from >= to`
+branch (the only part that changed): params and validators are set, no round is prepared. -/
+def recacheShortBranchPreFix (s : State) : Option Agc :=
+  match s.store.vuBlock with
+  | none => none
+  | some _ =>
+    let g : Agc := { params := none, vals := [], total := 0, rounds := [], workers := [] }
+    let g := g.setValidators s.dogfood
+    let best := s.store.recentParams.foldl (fun (acc : Option (Nat × Params)) kv =>
+      match acc with | some x => if kv.1 > x.1 then some kv else acc | none => some kv) none
+    match best with
+    | some (_, _) => some { g with params := some s.store.params }
+    | none => none
+
+/-- single.go: `from` *before* the F-14f repair in a freshly started process: the window length is the
+compiled-in default of the package variable `common.MaxNonce` (3), not the stored params -/
+def replayFromIPreFix (s : State) (h : Nat) : Int :=
+  if (h : Int) ≥ ((s.height + 1 : Nat) : Int) - 3 + 1 then (h : Int) + 1
+  else ((s.height + 1 : Nat) : Int) - 3 + 1
+
 end ExoVerif.Oracle
